@@ -16,13 +16,14 @@ static mut CB_N: usize = 0;
 static mut CB_BLOCK: [[u8; 128]; MAXC] = [[0; 128]; MAXC];
 static mut CB_OUT: [[u64; 8]; MAXC] = [[0; 8]; MAXC];
 
-fn compress512_stub(state: &mut [u64; 8], blocks: &[[u8; 128]]) {
+type Block512 = hmac::digest::generic_array::GenericArray<u8, hmac::digest::typenum::U128>;
+fn compress512_stub(state: &mut [u64; 8], blocks: &[Block512]) {
     let mut b = 0;
     while b < blocks.len() {
         unsafe {
             let i = CB_N;
             assert!(i < MAXC, "more SHA-512 blocks than the specification hashes");
-            CB_BLOCK[i] = blocks[b];
+            CB_BLOCK[i].copy_from_slice(&blocks[b][..]);
             let out: [u64; 8] = kani::any();
             CB_OUT[i] = out;
             *state = out;
@@ -261,7 +262,8 @@ fn check_derive<const L: usize, const D: usize>(force_kind: Option<bool>) {
         key = add_mod_n(&il, &key);
         d += 1;
     }
-    if valid && !dont_care && is_zero(&key) {
+    if valid && !dont_care && (is_zero(&key) || !below_order(&key)) {
+        // the final key (for depth 0: the master key itself) must be a valid secret
         valid = false;
     }
     kani::cover!(valid && !dont_care, "key derived");
